@@ -1,3 +1,4 @@
+import re
 """Summaries of small string helper functions, derived from their bodies (astq tails) on every run."""
 from . import vt
 
@@ -55,6 +56,19 @@ def summarize(ctx, name, file_hint=None):
         return {'kind': 'opaque', 'detail': f['qual'] + ' (contains loops)'}
     params = _param_names(f)
     tail = f['tail']
+    # the Debug-quote-then-unquote idiom as a helper: `let q = format!("{:?}", name); q[1..q.len() - 1].to_owned()` — the text
+    # of the parameter with string escapes applied, without the surrounding quotes (meant for a position between quotes)
+    t0 = vt.strip(tail) if isinstance(tail, dict) else None
+    while isinstance(t0, dict) and t0.get('k') == 'call' and t0.get('recv') is not None and t0.get('f') in ('to_owned', 'to_string', 'into') and not t0.get('args'):
+        t0 = vt.strip(t0['recv'])
+    if isinstance(t0, dict) and t0.get('k') == 'index' and not f.get('returns'):
+        b = vt.strip(t0.get('base'))
+        ix = t0.get('index') or {}
+        st, en = vt.strip(ix.get('start')) if isinstance(ix.get('start'), dict) else None, ix.get('end')
+        if isinstance(b, dict) and b.get('k') == 'fmt' and len(b.get('parts', [])) == 1 and isinstance(b['parts'][0], dict) and b['parts'][0].get('spec') == '?' \
+                and isinstance(vt.strip(b['parts'][0].get('hole')), dict) and vt.strip(b['parts'][0]['hole']).get('k') == 'atom' and vt.strip(b['parts'][0]['hole']).get('root') in params \
+                and isinstance(st, dict) and str(st.get('v')) == '1' and ix.get('k') == 'range' and not ix.get('inclusive') and re.sub(r'\s', '', vt.show(en)).endswith(".len()-'1')"):
+            return {'kind': 'debug-unquote', 'detail': f['qual']}
     # early `return` values count as alternatives
     alts = [tail] + [r['v'] for r in f.get('returns', []) if r.get('v')]
     kinds = []
